@@ -4,9 +4,10 @@ from __future__ import annotations
 import ast
 
 from .. import bits, paths
-from ..core import call_attr, calls_in, const, dotted, kwarg, norm, slice_parts, text, walk_local
+from ..core import call_attr, calls_in, const, dotted, is_const, kwarg, norm, slice_parts, text, walk_local
 
 EXPLANATION = [
+    'C08.peer-params: the TxWindow / MaxTransmit / MPS the ERTM sender obeys are the ones unpacked from the peer\'s Configure Request (same field order as packed), forwarded by name through the factory and stored under their own names.',
     'C08.ctrl-bits: parse and serialise bit layouts of the I-frame and S-frame '
     'enhanced control fields agree field by field and no two serialised fields '
     'share a bit.',
@@ -328,7 +329,75 @@ def config_fsm(ctx):
         R.check(ok, rule, f'{CC}.send_configure_request | RFC option slots', 'same field order on the sending side', 'retransmission option is packed in a different field order than it is unpacked', p.loc(sc))
 
 
+
+def peer_params(ctx):
+    """The ERTM parameters the sender obeys are the ones the peer put in its Configure Request."""
+    R, p = ctx.r, ctx.p
+    rule = 'C08.peer-params'
+    init = p.find('bumble.l2cap.EnhancedRetransmissionProcessor.__init__')
+    if init is None:
+        R.bad(rule, 'bumble.l2cap.EnhancedRetransmissionProcessor.__init__', 'anchor missing')
+        return
+    params = [a.arg for a in init.args.args if a.arg.startswith('peer_')]
+    assigns = {dotted(n.targets[0]): norm(n.value) for n in walk_local(init) if isinstance(n, ast.Assign) and len(n.targets) == 1 and dotted(n.targets[0])}
+    for prm in params:
+        R.check(assigns.get(f'self.{prm}') == prm, rule, f'EnhancedRetransmissionProcessor.__init__ | self.{prm}', f'stored from the constructor parameter {prm}',
+                f'self.{prm} = {assigns.get("self." + prm)}: the sender no longer obeys the value the peer announced (e.g. its own receive window instead of the peer\'s)', p.loc(init))
+    R.check(len(params) >= 3, rule, 'EnhancedRetransmissionProcessor.__init__ | peer parameters', f'{len(params)} peer_* parameters', f'only {len(params)} peer_* parameters found', p.loc(init))
+    # factory passes them through by name
+    fac = p.find('bumble.l2cap.ChannelManager.make_mode_processor')
+    if fac is None:
+        R.bad(rule, 'bumble.l2cap.ChannelManager.make_mode_processor', 'anchor missing')
+        return
+    ctor = next((c for c in calls_in(fac) if dotted(c.func) == 'EnhancedRetransmissionProcessor'), None)
+    names = [a.arg for a in init.args.args[1:]]
+    ok = ctor is not None
+    if ok:
+        for i, a in enumerate(ctor.args):
+            if i and i < len(names) and dotted(a) != names[i]:
+                ok = False
+        for k in ctor.keywords:
+            if k.arg in names and k.arg.startswith('peer_') and dotted(k.value) != k.arg:
+                ok = False
+    R.check(ok, rule, 'ChannelManager.make_mode_processor | pass-through', 'each peer_* argument reaches the constructor parameter of the same name', 'the factory hands a peer parameter to a different constructor parameter', p.loc(fac))
+    # the configure-request handler unpacks the option in the order it is packed and forwards by name
+    unpack = None
+    for f in p.cls('bumble.l2cap.ClassicChannel').methods.values():
+        for n in ast.walk(f):
+            if isinstance(n, ast.Assign) and isinstance(n.targets[0], ast.Tuple) and isinstance(n.value, ast.Call) and dotted(n.value.func) == 'struct.unpack_from' and const(n.value.args[0]) == '<BBBHHH':
+                unpack = (f, n)
+    packs = []
+    for f in p.cls('bumble.l2cap.ClassicChannel').methods.values():
+        for c in calls_in(f):
+            if dotted(c.func) == 'struct.pack' and c.args and is_const(c.args[0]) and const(c.args[0]) == '<BBBHHH':
+                packs.append((f, c))
+    if unpack is None or not packs:
+        R.bad(rule, 'bumble.l2cap.ClassicChannel | retransmission option codec', f'unpack site {"found" if unpack else "missing"}, {len(packs)} pack sites', '')
+        return
+    f, n = unpack
+    got = [x.id.replace('peer_', '') for x in n.targets[0].elts]
+    for pf, c in packs:
+        # identifiers mentioned by each packed argument (last attribute component)
+        idents = []
+        for a in c.args[1:]:
+            ids = {x.attr for x in ast.walk(a) if isinstance(x, ast.Attribute)} | {x.id for x in ast.walk(a) if isinstance(x, ast.Name)}
+            idents.append({i.lower() for i in ids})
+        ok = len(idents) == len(got)
+        if ok:
+            for want, have in zip(got, idents):
+                if want == 'mode':
+                    ok = ok and any('mode' in h for h in have)
+                else:
+                    ok = ok and want in have
+        shown = [sorted(h - {'self', 'spec', 'int'}) for h in idents]
+        R.check(ok, rule, f'ClassicChannel.{pf.name} | option field order', f'packed {shown} / unpacked {got}: same order', f'retransmission option packed as {shown} but unpacked as {got}: the peer\'s window / MPS / timers are read from the wrong field', p.loc(c))
+    call = next((c for c in calls_in(f) if call_attr(c) == 'make_mode_processor'), None)
+    ok = call is not None and all(dotted(k.value) == k.arg for k in call.keywords if k.arg.startswith('peer_')) and {k.arg for k in call.keywords} >= {'peer_tx_window_size', 'peer_max_retransmission', 'peer_mps'}
+    R.check(ok, rule, f'ClassicChannel.{f.name} | forwards the peer\'s option', 'peer_* values unpacked from the Configure Request go to the processor under their own names', 'the processor is not given the values the peer sent in its Configure Request', p.loc(f))
+
+
 RULES = [
+    ('C08.peer-params', peer_params),
     ('C08.ctrl-bits', ctrl_bits),
     ('C08.seq', seq),
     ('C08.window', window),
@@ -352,4 +421,7 @@ VARIANTS = [
      "        elif self.state == self.State.WAIT_CONFIG_REQ:\n            self._change_state(self.State.OPEN)\n            if self.connection_result:\n                self.connection_result.set_result(None)\n                self.connection_result = None\n",
      "        elif self.state == self.State.WAIT_CONFIG_REQ:\n            self._change_state(self.State.OPEN)\n", 'fire', 'C08.config-fsm'),
     ('benign: comment', 'bumble/l2cap.py', "                # Drop Control Field(2) + SDU Length(2)\n", "                # Drop control field and SDU length\n", 'silent', ''),
+    ('sender obeys its own window', 'bumble/l2cap.py', "        self.peer_tx_window_size = peer_tx_window_size\n", "        self.peer_tx_window_size = spec.tx_window_size\n", 'fire', 'C08.peer-params'),
+    ('factory swaps window and max retransmission', 'bumble/l2cap.py', "                channel, peer_tx_window_size, peer_max_retransmission, peer_mps\n", "                channel, peer_max_retransmission, peer_tx_window_size, peer_mps\n", 'fire', 'C08.peer-params'),
+    ('option unpacked in a different order', 'bumble/l2cap.py', "                        peer_tx_window_size,\n                        peer_max_retransmission,\n                        peer_retransmission_timeout,\n                        peer_monitor_timeout,\n                        peer_mps,\n                    ) = struct.unpack_from", "                        peer_max_retransmission,\n                        peer_tx_window_size,\n                        peer_retransmission_timeout,\n                        peer_monitor_timeout,\n                        peer_mps,\n                    ) = struct.unpack_from", 'fire', 'C08.peer-params'),
 ]
